@@ -2,6 +2,7 @@ package g_hstream
 
 import (
 	"reflect"
+	"sync"
 	"testing"
 
 	"github.com/apache/arrow-go/v18/arrow"
@@ -20,6 +21,9 @@ type c14Case struct {
 	Cancel  bool         `json:"cancel"`
 	Limit   int          `json:"limit"`
 	Cache0  bool         `json:"cache0"`
+	// Rehydrate: "" = no rehydrate callback; "count" = one that records its
+	// invocations; "strict" = one that also panics when handed another method's state
+	Rehydrate string `json:"rehydrate,omitempty"`
 }
 
 var c14Methods = []string{"s_prod", "s_prod_h", "s_exch", "s_exch_h", "s_dyn"}
@@ -51,6 +55,7 @@ func genC14(t *rapid.T) c14Case {
 	c.A = call
 	c.Warm = rapid.IntRange(0, 3).Draw(t, "warm")
 	c.InputOf = []string{"tick", "a", "b"}[rapid.IntRange(0, 2).Draw(t, "input")]
+	c.Rehydrate = []string{"", "count", "count", "strict"}[rapid.IntRange(0, 3).Draw(t, "rehydrate")]
 	return c
 }
 
@@ -60,6 +65,23 @@ func runC14(c c14Case) (out lib.Outcome) {
 	if c.Cache0 {
 		z := 0
 		o.Cache = &z
+	}
+	// The operator's rehydrate callback is per-method code too: it is handed
+	// the decoded state together with the name of the method being resumed.
+	var rehydMu sync.Mutex
+	var rehydrated []string
+	if c.Rehydrate != "" {
+		out.Label("rehydrate:" + c.Rehydrate)
+		o.Rehydrate = func(state interface{}, method string) error {
+			rehydMu.Lock()
+			rehydrated = append(rehydrated, method)
+			rehydMu.Unlock()
+			if c.Rehydrate == "strict" && method == c.B {
+				// what a real callback does: treat the state as the type its method builds
+				panic("rehydrate for " + method + " was handed the state of another method")
+			}
+			return nil
+		}
 	}
 	h := newHTTP(o)
 	kindA := c.A.ConcreteKind()
@@ -109,7 +131,18 @@ func runC14(c c14Case) (out lib.Outcome) {
 		extra = append(extra, [2]string{lib.KCancel, "true"})
 		out.Label("cancel")
 	}
+	rehydMu.Lock()
+	rehydBefore := len(rehydrated)
+	rehydMu.Unlock()
 	x := lib.HTTPContinue(h, "", c.B, in, cursor, callTok, extra, nil)
+	rehydMu.Lock()
+	for _, m := range rehydrated[rehydBefore:] {
+		if m == c.B {
+			out.Violate("C14/rehydrate-ran-on-foreign-state", "the rehydrate callback was invoked for method %s on a state minted by %s", c.B, c.A.Method)
+			break
+		}
+	}
+	rehydMu.Unlock()
 	if x.Resp.Panic != "" {
 		out.Violate("C14/cross-method-panic", "token of %s (%s) at %s/exchange: the request panicked (aborts the connection): %s", c.A.Method, kindA, c.B, lib.Short(x.Resp.Panic, 200))
 		return
@@ -142,11 +175,11 @@ func runC14(c c14Case) (out lib.Outcome) {
 
 var propC14 = lib.Prop[c14Case]{
 	ID: "C14",
-	Rule: "ordered pairs (A,B) of distinct stream methods over producer/exchange (+-header)/dynamic-producer/dynamic-exchange (so pairs sharing a state type and pairs whose state lacks the other interface both occur); tokens minted at A after 0-3 continuations, presented at B's /exchange with a tick, A-shaped or B-shaped input, with or without the cancel flag, producer batch limit 1-2, call cache default or disabled; " +
-		"oracle: 4xx with an EXCEPTION body, no panic, the state call log unchanged by the cross request, and the same tokens still work at A. Every case is non-trivial (A != B by construction).",
+	Rule: "ordered pairs (A,B) of distinct stream methods over producer/exchange (+-header)/dynamic-producer/dynamic-exchange (so pairs sharing a state type and pairs whose state lacks the other interface both occur); tokens minted at A after 0-3 continuations, presented at B's /exchange with a tick, A-shaped or B-shaped input, with or without the cancel flag, producer batch limit 1-2, call cache default or disabled, no rehydrate callback / a recording one / one that panics when handed another method's state; " +
+		"oracle: 4xx with an EXCEPTION body, no panic, the state call log unchanged by the cross request, the rehydrate callback never invoked for B, and the same tokens still work at A. Every case is non-trivial (A != B by construction).",
 	Gen:          genC14,
 	Run:          runC14,
-	Essential:    []string{"shared-state-type", "a:producer", "a:exchange", "cancel"},
+	Essential:    []string{"shared-state-type", "a:producer", "a:exchange", "cancel", "rehydrate:count", "rehydrate:strict"},
 	EssentialMin: 200,
 }
 
